@@ -140,17 +140,20 @@ def swap_many_contract(itp, st, args, ctx):
     dl, dr = args[1], args[2]
     L1, R1 = sat_add(L, dl), sat_add(R, dr)
     outs = []
-    ok = simp(z3.And(z3.UGE(L, 1), z3.UGE(R, 1), z3.ULE(L, CAP), z3.ULE(R, CAP), z3.ULT(dl, CAP), z3.ULT(dr, CAP)))
+    # exact panic region (C16 swap kernel on the melstructs MIR): swap_many divides by a reserve that is still empty after the
+    # batch was paid in
+    ok = simp(z3.And(z3.UGE(L1, 1), z3.UGE(R1, 1), z3.ULE(L, CAP), z3.ULE(R, CAP), z3.ULT(dl, CAP), z3.ULT(dr, CAP)))
     if not z3.is_true(ok) and itp.feasible(st, z3.Not(ok)):
         f = st.fork()
         f.assume(z3.Not(ok))
-        outs.append((f, Panic('swap_many outside the region its contract is proven for (reserves in [1, 2^127], amounts < 2^127)', ctx.fn.name)))
+        outs.append((f, Panic('swap_many divides by an empty reserve (or is outside reserves <= 2^127, amounts < 2^127)', ctx.fn.name)))
     if z3.is_true(ok) or itp.feasible(st, ok):
         st.assume(ok)
         lw, rw, pa2 = _fresh_u128('swap_lw'), _fresh_u128('swap_rw'), _fresh_u128('swap_pa')
         G.add(z3.Implies(ok, z3.And(I(rw) * I(L1) * 1000 <= 995 * I(dl) * I(R1), (I(rw) + 1) * I(L1) * 1000 > 995 * I(dl) * I(R1),
                                     I(lw) * I(R1) * 1000 <= 995 * I(dr) * I(L1), (I(lw) + 1) * I(R1) * 1000 > 995 * I(dr) * I(L1),
-                                    z3.ULT(lw, L1), z3.ULT(rw, R1))))
+                                    z3.ULE(lw, L1), z3.ULE(rw, R1),
+                                    z3.Implies(z3.And(z3.UGE(L, 1), z3.UGE(R, 1)), z3.And(z3.ULT(lw, L1), z3.ULT(rw, R1))))))
         itp.store(st, args[0], Agg(ps.ty, [L1 - lw, R1 - rw, pa2, LQ]))
         st.events.append(('swap_many', {'L': L, 'R': R, 'LQ': LQ, 'dl': dl, 'dr': dr, 'L1': L1, 'R1': R1, 'lw': lw, 'rw': rw}))
         outs.append((st, Ret(Agg('tuple', [lw, rw]))))
@@ -192,12 +195,13 @@ def withdraw_contract(itp, st, args, ctx):
     L, R, PA, LQ = ps.fields
     w = args[1]
     outs = []
-    region = simp(z3.And(z3.UGE(L, 1), z3.UGE(R, 1), z3.ULE(L, CAP), z3.ULE(R, CAP), z3.UGE(LQ, 1), z3.ULE(LQ, CAP)))
+    # exact panic region (C16 withdraw kernel on the melstructs MIR): more than the pool records, or a pool without liquidity
+    region = simp(z3.And(z3.ULE(L, CAP), z3.ULE(R, CAP), z3.UGE(LQ, 1), z3.ULE(LQ, CAP)))
     ok = simp(z3.And(region, z3.ULE(w, LQ)))
     if not z3.is_true(ok) and itp.feasible(st, z3.Not(ok)):
         f = st.fork()
         f.assume(z3.Not(ok))
-        outs.append((f, Panic('withdraw of more liquidity than the pool records (assertion failed: self.liqs >= liqs), or outside the proven region',
+        outs.append((f, Panic('withdraw of more liquidity than the pool records (assertion failed: self.liqs >= liqs), or from a pool without liquidity (0/0)',
                               ctx.fn.name)))
     if z3.is_true(ok) or itp.feasible(st, ok):
         st.assume(ok)
@@ -205,7 +209,8 @@ def withdraw_contract(itp, st, args, ctx):
         allout = w == LQ
         G.add(z3.Implies(z3.And(ok, z3.Not(allout)),
                          z3.And(I(lo) * I(LQ) <= I(L) * I(w), (I(lo) + 1) * I(LQ) > I(L) * I(w),
-                                I(ro) * I(LQ) <= I(R) * I(w), (I(ro) + 1) * I(LQ) > I(R) * I(w), z3.ULT(lo, L), z3.ULT(ro, R))))
+                                I(ro) * I(LQ) <= I(R) * I(w), (I(ro) + 1) * I(LQ) > I(R) * I(w), z3.ULE(lo, L), z3.ULE(ro, R),
+                                z3.Implies(z3.UGE(L, 1), z3.ULT(lo, L)), z3.Implies(z3.UGE(R, 1), z3.ULT(ro, R)))))
         G.add(z3.Implies(z3.And(ok, allout), z3.And(lo == L, ro == R)))
         itp.store(st, args[0], Agg(ps.ty, [L - lo, R - ro, PA, LQ - w]))
         st.events.append(('withdraw', {'L': L, 'R': R, 'LQ': LQ, 'w': w, 'lo': lo, 'ro': ro}))
@@ -222,6 +227,9 @@ def install_pool_contracts(it):
     return added
 
 
+WEAK_POOLS = [False]  # C09 (panic mode): pools of the tree may have EMPTY reserves / no liquidity (user-created pools can be drained)
+
+
 def sym_pool_setup(chk, it, st):
     """(state, sterms, pool key, key term, pool-state-before terms); pool invariant attached to every sample of the pools tree"""
     state, sterms = B.sym_state(st.pc)
@@ -234,7 +242,8 @@ def sym_pool_setup(chk, it, st):
     def hook(itp, s_, key, dom, v):
         ps = v.data.value
         for i in (0, 1, 3):
-            G.add(z3.Implies(v.data.present, z3.And(z3.UGE(ps.fields[i], 1), z3.ULE(ps.fields[i], CAP))))
+            lo = 0 if WEAK_POOLS[0] else 1
+            G.add(z3.Implies(v.data.present, z3.And(z3.UGE(ps.fields[i], lo), z3.ULE(ps.fields[i], CAP))))
     it.base_read_hooks['pools'] = hook
     return state, sterms, pk
 
@@ -592,7 +601,8 @@ def ref_deposits(exists, L, R, Q, deps):
 def replay_deposits(chk, model, inputs, n):
     ev = lambda t: harness.model_int(model, t)
     exists = bool(ev(inputs['pool_exists']))
-    L, R, Q = max(ev(inputs['pool_lefts']), 1), max(ev(inputs['pool_rights']), 1), max(ev(inputs['pool_liqs']), 1)
+    lo_ = 0 if WEAK_POOLS[0] else 1
+    L, R, Q = max(ev(inputs['pool_lefts']), lo_), max(ev(inputs['pool_rights']), lo_), max(ev(inputs['pool_liqs']), lo_)
     deps = [(ev(inputs['dep%d_lefts' % i]), ev(inputs['dep%d_rights' % i])) for i in range(n)]
     return run_deposit_scenario(exists, L, R, Q, deps)
 
@@ -621,6 +631,8 @@ def run_deposit_scenario(exists, L, R, Q, deps, kind=0x52, backing=True):
     mm = run.get('melmint', {})
     if mm.get('panicked'):
         return True, sc, {'why': 'panic in process_deposits: ' + mm.get('msg', '')[-200:]}
+    if exists and Q >= 1 and (L == 0 or R == 0):
+        return False, sc, {'why': 'a pool with liquidity and an empty reserve: no proportion to mint in, and no panic', 'native': mm}
     outs, L2, R2, Q2, minted = ref_deposits(exists, L, R, Q, deps)
     got = mm.get('probes', [])
     why = ''
@@ -759,7 +771,8 @@ def ref_withdrawals(L, R, Q, burns):
 
 def replay_withdrawals(chk, model, inputs, n):
     ev = lambda t: harness.model_int(model, t)
-    L, R, Q = max(ev(inputs['pool_lefts']), 1), max(ev(inputs['pool_rights']), 1), max(ev(inputs['pool_liqs']), 1)
+    lo_ = 0 if WEAK_POOLS[0] else 1
+    L, R, Q = max(ev(inputs['pool_lefts']), lo_), max(ev(inputs['pool_rights']), lo_), max(ev(inputs['pool_liqs']), lo_)
     burns = [ev(inputs['burn%d_value' % i]) for i in range(n)]
     return run_withdraw_scenario(L, R, Q, burns)
 
@@ -784,6 +797,8 @@ def run_withdraw_scenario(L, R, Q, burns, kind=0x53):
     if run.get('result') != 'Ok':
         raise Inconclusive('replay: the withdrawal batch itself was rejected: %s' % run.get('result'))
     mm = run.get('melmint', {})
+    if Q == 0 and sum(burns) == 0:
+        return bool(mm.get('panicked')), sc, {'why': 'withdrawal of nothing from a pool without liquidity: ' + ('panic: ' + mm.get('msg', '')[-160:] if mm.get('panicked') else 'no panic'), 'native': None if mm.get('panicked') else mm}
     ref = ref_withdrawals(L, R, Q, burns)
     if mm.get('panicked'):
         return ref != 'panic-by-design', sc, {'why': 'panic in process_withdrawals: ' + mm.get('msg', '')[-200:]}
@@ -823,7 +838,8 @@ def replay_swaps(chk, model, inputs, n):
     """the model's pool reserves and request amounts on the MEL/SYM pool of a Custom02 chain: real Swap transactions, sealed;
     the rewritten coins and the pool are compared with the exact reference"""
     ev = lambda t: harness.model_int(model, t)
-    L, R = max(ev(inputs['pool_lefts']), 1), max(ev(inputs['pool_rights']), 1)
+    lo_ = 0 if WEAK_POOLS[0] else 1
+    L, R = max(ev(inputs['pool_lefts']), lo_), max(ev(inputs['pool_rights']), lo_)
     reqs = [(ev(inputs['swap%d_value' % i]), bool(ev(inputs['swap%d_pays_left' % i]))) for i in range(n)]
     return run_swap_scenario(L, R, reqs)
 
@@ -852,6 +868,8 @@ def run_swap_scenario(L, R, reqs, kind=0x51):
     mm = run.get('melmint', {})
     if mm.get('panicked'):
         return True, sc, {'why': 'panic in process_swaps: ' + mm.get('msg', '')[-200:]}
+    if L + sum(v for v, lf in reqs if lf) == 0 or R + sum(v for v, lf in reqs if not lf) == 0:
+        return False, sc, {'why': 'a pool with an empty reserve has no price: nothing to compare, and no panic', 'native': mm}
     want_outs, L2, R2 = ref_swaps(L, R, reqs)
     got = mm.get('probes', [])
     why = ''
